@@ -3,7 +3,8 @@
    mz m t is the value of counter t; the cache is created with metrics enabled. *)
 From stdpp Require Import gmap.
 From Ristretto Require Import Base.Word Cache.Policy Cache.PolicyProofs Cache.Store Cache.Machine Cache.MachineProofs
-  Cache.SyncProofs Cache.MetricsProofs.
+  Cache.SyncProofs Cache.MetricsProofs Sketch.TinyLFU Cache.Ring Cache.RingProofs.
+From Coq Require Import Permutation.
 Local Open Scope Z_scope.
 
 (* For every schedule (any number of threads, evictions, overwrites raising or lowering costs, expiries,
@@ -76,7 +77,82 @@ Example C17_nonvacuous :
   List.map (fun t => m_get (s_met s) t) [MHit; MMiss; MKeyAdd; MKeyEvict; MCostAdd; MCostEvict] = [1; 1; 2; 1; 120; 60]%N.
 Proof. vm_compute. repeat split. Qed.
 
+(* ---- The Get ring buffer written out (Cache/Ring.v: ring.go's ringStripe.Push and sync.Pool of stripes,
+   policy.go's defaultPolicy.Push with its non-blocking send and keepGets / dropGets, processItems' receipt).
+   The machine above abstracts it to the environment step [LGets kept n]; these theorems are about the code's own
+   algorithm, for every sequence [ops] of pushes (any item, any stripe the pool hands out, new stripes at any time),
+   garbage-collected stripes, receipts by the policy goroutine and Close, any BufferItems [capa] (also <= 0) and any
+   capacity of itemsCh. ---- *)
+
+(* every recorded Get is accounted for exactly once: kept, or dropped, or forgotten without a counter (closed policy,
+   stripe dropped by the GC), or still sitting in a stripe; in particular GetsKept + GetsDropped <= Gets *)
+Theorem C17_ring_conservation : forall capa chcap ops,
+  let r := ring_run (ring_new capa chcap) ops in
+  (N.to_nat (r_kept r) + N.to_nat (r_dropped r) + length (r_lostl r) + undecided r = length (r_pushed r))%nat /\
+  (r_kept r + r_dropped r <= N.of_nat (length (r_pushed r)))%N.
+Proof. intros capa chcap ops r. split; [exact (ring_conservation capa chcap ops)|exact (ring_kept_dropped_le capa chcap ops)]. Qed.
+
+(* the counters are exact: GetsKept = number of keys in the batches handed to the policy, GetsDropped = number of keys
+   in the batches refused because itemsCh was full; and as multisets the pushed keys are exactly the applied, queued,
+   dropped, forgotten and still-buffered ones (nothing duplicated, nothing invented) *)
+Theorem C17_ring_exact : forall capa chcap ops,
+  let r := ring_run (ring_new capa chcap) ops in
+  r_kept r = N.of_nat (length (concat (r_recv r ++ r_ch r))) /\ r_dropped r = N.of_nat (length (r_dropl r)) /\
+  Permutation (r_pushed r) (concat (r_recv r) ++ concat (r_ch r) ++ r_dropl r ++ r_lostl r ++ concat (r_stripes r)).
+Proof.
+  intros capa chcap ops r. destruct (ring_counters_exact capa chcap ops) as [A B].
+  split; [exact A|split; [exact B|exact (ring_permutation capa chcap ops)]].
+Qed.
+
+(* every batch has exactly max(BufferItems,1) keys, no stripe ever holds that many after a Push returns, and itemsCh
+   never exceeds its capacity (the send is non-blocking) *)
+Theorem C17_ring_batches : forall capa chcap ops,
+  let r := ring_run (ring_new capa chcap) ops in
+  Forall (fun b => Z.of_nat (length b) = Z.max capa 1) (r_recv r ++ r_ch r) /\
+  Forall (fun d => Z.of_nat (length d) < Z.max capa 1) (r_stripes r) /\
+  (length (r_ch r) <= chcap)%nat.
+Proof. exact ring_batches. Qed.
+
+(* the admission sketch is told of a key at most as often as the key was read, and what the policy goroutine has done
+   to it is tinyLFU.Push of the received batches in order *)
+Theorem C17_ring_no_invented_access : forall capa chcap ops k t0,
+  let r := ring_run (ring_new capa chcap) ops in
+  (cnt k (concat (r_recv r)) + cnt k (concat (r_ch r)) <= cnt k (r_pushed r))%nat /\
+  ring_tl t0 r = tl_push t0 (concat (r_recv r)).
+Proof. intros capa chcap ops k t0 r. split; [exact (ring_no_invented_access capa chcap ops k)|exact (ring_applied t0 r)]. Qed.
+
+(* each step of the ring is an instance of what the machine's [LGets] allows: one more undecided Get, or exactly one
+   counter raised by the size of a batch that is no larger than the undecided Gets (including the one just recorded) *)
+Theorem C17_ring_refines_LGets : forall capa chcap ops o,
+  let r := ring_run (ring_new capa chcap) ops in
+  let r' := fst (ring_step r o) in
+  match snd (ring_step r o) with
+  | OStored _ => undecided r' = S (undecided r) /\ r_kept r' = r_kept r /\ r_dropped r' = r_dropped r
+  | ODrain keys v =>
+      (length keys <= S (undecided r))%nat /\ (undecided r' + length keys = S (undecided r))%nat /\
+      match v with
+      | VKept => r_kept r' = (r_kept r + N.of_nat (length keys))%N /\ r_dropped r' = r_dropped r
+      | VDropped => r_kept r' = r_kept r /\ r_dropped r' = (r_dropped r + N.of_nat (length keys))%N
+      | VClosed => r_kept r' = r_kept r /\ r_dropped r' = r_dropped r
+      end
+  | _ => (undecided r' <= undecided r)%nat /\ r_kept r' = r_kept r /\ r_dropped r' = r_dropped r
+  end.
+Proof. intros capa chcap ops o r. exact (ring_refines_lgets r o (reachable_rinv capa chcap ops)). Qed.
+
+(* two stripes of capacity 2, a channel of capacity 1: one batch kept, one dropped, one received, one key left *)
+Example C17_ring_nonvacuous :
+  let r := ring_run (ring_new 2 1)
+             [RPush 0 5; RPush 1 6; RPush 0 7; RPush 1 8; RRecv; RPush 0 9]%N in
+  (r_kept r, r_dropped r, r_recv r, r_ch r, r_dropl r, r_stripes r) = (2, 2, [[5; 7]], [], [6; 8], [[9]; []])%N.
+Proof. vm_compute. reflexivity. Qed.
+
 Print Assumptions C17_hits_misses.
 Print Assumptions C17_keys.
 Print Assumptions C17_cost.
 Print Assumptions C17_ring.
+Print Assumptions C17_drops.
+Print Assumptions C17_ring_conservation.
+Print Assumptions C17_ring_exact.
+Print Assumptions C17_ring_batches.
+Print Assumptions C17_ring_no_invented_access.
+Print Assumptions C17_ring_refines_LGets.
